@@ -587,7 +587,13 @@ void vf_run(const uint8_t *data, size_t len)
         }
         int op = tab[o % tab.size()];
         nops++;
-        if (!twin) {
+        const bool first_clear = op == CLEAR && cx.c15 && !twin;
+        const char *fc_abandon = nullptr;
+        if (first_clear) {
+            // the audit right after the clear belongs to the comparison with the fresh twin (built below): a
+            // front/back/traversal mismatch of the just-cleared list must not be dropped as "another property's clause"
+            try { apply(A, cx, op, a, b, K, maxlive, audit_all, nullptr); } catch (const Abandon &x) { fc_abandon = x.clause; }
+        } else if (!twin) {
             apply(A, cx, op, a, b, K, maxlive, audit_all, nullptr);
         } else {
             // the cleared list and the fresh twin must be indistinguishable: same
@@ -619,6 +625,17 @@ void vf_run(const uint8_t *data, size_t len)
             }
             B.next_id = A.next_id;
             TRACE("twin B created (fresh list, other lists rebuilt)");
+            static Obs oa, ob;
+            oa.clear();
+            ob.clear();
+            const char *ab_a = fc_abandon, *ab_b = nullptr;
+            if (!ab_a) try { for (int i = 0; i < nl; i++) audit(A, i, &oa, "C12"); } catch (const Abandon &x) { ab_a = x.clause; }
+            try { for (int i = 0; i < nl; i++) audit(B, i, &ob, "C12"); } catch (const Abandon &x) { ab_b = x.clause; }
+            g_cur_op = "clear";
+            CHECK((ab_a || oa == ob) && !ab_a == !ab_b, "C15.dlist.reuse",
+                  "right after clear the list differs from a freshly initialised one%s%s", ab_a ? ": it fails " : (ab_b ? ": the twin fails " : ""),
+                  ab_a ? ab_a : (ab_b ? ab_b : ""));
+            if (ab_a) throw Abandon{ab_a};
         }
     }
     g_sparse_skip = false;
